@@ -133,9 +133,17 @@ def text(rng):
     return rng.choice(TEXTS)
 
 
+# JSON texts the stdlib parser accepts and stricter parsers (orjson) reject or read differently: written by the server
+# AS THEY ARE (`{"$lit": text}`, see carrier_h.dumps); every carrier delivers them today, so they are in the quantifier
+LITS = ["NaN", "Infinity", "-Infinity", "1e400", "-1E+400", "1e-400", "\"\\ud83d\"", "\"a\\udc00b\"", "\"\\ud83d\\ude00\"", "[NaN,1]", "-0", "0.1e1", "1.0E2",
+        "18446744073709551615", "-0.0", "{\"k\":Infinity}"]
+
+
 def value(rng, depth=3):
     r = rng.random()
     if depth <= 0 or r < 0.35:
+        if rng.random() < 0.03:
+            return {"$lit": rng.choice(LITS)}
         if rng.random() < 0.06:
             return rng.choice(FLOATS)
         return rng.choice([None, True, False, rng.choice(INTS), text(rng), text(rng), {}, []])
@@ -706,6 +714,29 @@ def escaping_errors(rng, names):
                     "style": STYLES[0], "D": 5120, "escape": True, "wire": {"json": {"all": True}}})
         out.append({"xs": [{"call": {"h": h}, "notifs": [], "reply": {"result": template(h, rng)}, "lat": 40, "gap": 1, "D": 5}],
                     "style": STYLES[0], "D": 5120, "escape": True, "wire": {"json": {"all": True}}})
+    return out
+
+
+def lenient_json_matrix():
+    """every such literal x where it stands (result, nested in a list, notification params, error data) x how the
+    carrier hands the message over (JSON object / array body, SSE body, stdio line / batch line, legacy stream / 200 reply)"""
+    out = []
+    wires = [{"json": {"all": True}}, {"json": [{"batch": True}], "stdio": {"batch": [True]}, "sse": {"m200": [True]}},
+             {"json": {"all": True}, "httpsse": [{"evs": [{"name": "response"}], "tail": "noeol"}], "sse": {"ack": [9]}}]
+    k = 0
+    for lit in LITS:
+        L = {"$lit": lit}
+        for place in ("result", "notif", "errdata"):
+            k += 1
+            w = copy.deepcopy(wires[k % len(wires)])
+            if place == "notif" and isinstance(w["json"], list):
+                w["json"] = {"all": True}
+            x = {"call": {"h": "send_message", "method": "tools/list", "params": None},
+                 "notifs": [{"method": "notifications/message", "params": {"data": L, "l": [None, L]}}] if place == "notif" else [],
+                 "reply": {"error": {"code": 1, "message": "m", "data": {"v": L}}} if place == "errdata" else {"result": {"v": L, "l": [L, "\u00e9"]}},
+                 "lat": 1, "gap": 1}
+            out.append({"xs": [x, {"call": {"h": "send_ping"}, "notifs": [], "reply": {"result": {}}, "lat": 1, "gap": 1}],
+                        "style": STYLES[k % len(STYLES)], "D": 5120, "tie": TIES[k % len(TIES)], "wire": w})
     return out
 
 
